@@ -117,15 +117,36 @@ def forbidden_scan():
     return hits
 
 
+class HarnessAbort(Exception):
+    def __init__(self, rc, case):
+        Exception.__init__(self, "harness process died (rc %s)" % rc)
+        self.rc = rc
+        self.case = case
+
+
 def pipeline(name, gen_cmd, stdin_path=None):
     """Run `gen_cmd | tgdriver`, keeping requests and responses in .work; returns (req_path, resp_path)."""
     os.makedirs(WORK, exist_ok=True)
     req = os.path.join(WORK, name + ".req.jsonl")
     resp = os.path.join(WORK, name + ".resp.jsonl")
+    cur = os.path.join(WORK, name + ".current.json")
+    if os.path.exists(cur):
+        os.remove(cur)
+    env = dict(ENV)
+    env["TGH_CURRENT"] = cur
     with open(req, "w") as rq:
         stdin = open(stdin_path) if stdin_path else subprocess.DEVNULL
-        p = subprocess.run(gen_cmd, stdout=rq, stderr=subprocess.DEVNULL, env=ENV, stdin=stdin)
+        p = subprocess.run(gen_cmd, stdout=rq, stderr=subprocess.DEVNULL, env=env, stdin=stdin)
         if p.returncode != 0:
+            case = None
+            if os.path.exists(cur):
+                try:
+                    case = json.load(open(cur, encoding="utf-8"))
+                except Exception:
+                    case = None
+            if case is not None:
+                # the process died while running the real code on this case (abort / stack overflow / OOM)
+                raise HarnessAbort(p.returncode, case)
             raise BuildFailed("generator failed: %s (rc %d)" % (" ".join(gen_cmd), p.returncode))
     with open(req) as rq, open(resp, "w") as rs:
         p = subprocess.run([DRIVER], stdin=rq, stdout=rs, stderr=subprocess.PIPE, env=ENV)
